@@ -253,4 +253,70 @@ def cstep (c : CState) : COp → CState
   | .realloc _ => c
   | .free => c
 
+/-! ## the `operator new` overloads in front of the allocator (src/CppUTest/MemoryLeakWarningPlugin.cpp)
+
+`new`, `new[]`, their nothrow forms and the forms that carry file/line (the `new` macro) each call a function
+pointer; `turnOnThreadSafeNewDeleteOverloads()` / `turnOnDefaultNotThreadSafeNewDeleteOverloads()` point them at the
+`threadsafe_mem_leak_operator_new*` resp. `mem_leak_operator_new*` functions, which ask the current new / new[]
+allocator and either hand its NULL to the caller or turn it into `std::bad_alloc`.  The three tables (form → pointer,
+pointer → function per overload mode, function → throws on NULL) are regenerated (`Gen/FailableConstants.lean`). -/
+
+/-- the `operator new` form an allocation family of the workload is compiled to (`none`: the malloc family and the direct
+    call of `alloc_memory`, which hand NULL back): p = `new char`, q = `new char[n]`, t / u their nothrow forms,
+    n / a = `operator new / new[] (size, file, line)`, W = `new char[n]` under the new macro -/
+def familyForm : String → Option String
+  | "p" => some "operator_new"
+  | "t" => some "operator_new_nothrow"
+  | "n" => some "operator_new_debug"
+  | "q" => some "operator_new_array"
+  | "u" => some "operator_new_array_nothrow"
+  | "a" => some "operator_new_array_debug"
+  | "W" => some "operator_new_array_debug"
+  | _ => none
+
+def newForms : List String :=
+  ["operator_new", "operator_new_nothrow", "operator_new_debug", "operator_new_array", "operator_new_array_nothrow",
+   "operator_new_array_debug"]
+
+def lookupS {α : Type} (k : String) (t : List (String × α)) : Option α := (t.find? (fun e => e.1 == k)).map (·.2)
+
+/-- the function behind an `operator new` form while the thread-safe (`ts = true`) resp. the default overloads are on -/
+def installedNew (ts : Bool) (form : String) : Option String :=
+  match lookupS form operatorFptr with
+  | none => none
+  | some fp => lookupS fp (if ts then threadSafeOverloads else plainOverloads)
+
+/-- does the form turn a refused allocation into `std::bad_alloc` in that overload mode (by the regenerated tables) -/
+def formThrows (ts : Bool) (form : String) : Bool :=
+  match installedNew ts form with
+  | none => false
+  | some fn => (lookupS fn newThrowsOnNull).getD false
+
+/-- what C++ promises for the form: the throwing forms throw, the nothrow forms return NULL -/
+def formThrowsSpec : String → Bool
+  | "operator_new" => true
+  | "operator_new_debug" => true
+  | "operator_new_array" => true
+  | "operator_new_array_debug" => true
+  | _ => false
+
+inductive Outcome
+  | ok
+  | null
+  | throws
+deriving Repr, DecidableEq, Inhabited
+
+/-- what the caller of an allocation of family `fam` sees when the allocator's answer is `fails` -/
+def outcome (ts : Bool) (fam : String) (fails : Bool) : Outcome :=
+  match fails, familyForm fam with
+  | false, _ => .ok
+  | true, none => .null
+  | true, some form => if formThrows ts form then .throws else .null
+
+/-- the way a designated allocation of the family has to fail (property: NULL, or `bad_alloc` for the throwing forms) -/
+def failureKind (fam : String) : Outcome :=
+  match familyForm fam with
+  | none => .null
+  | some form => if formThrowsSpec form then .throws else .null
+
 end Failable
